@@ -46,12 +46,12 @@ profile s @{exec_path} {
 		user, other uint32
 	}
 	for s, want := range map[string]fw{
-		"/etc/foo":    {permR, permR},
-		"/home/u/x":   {permR | permW | permA, 0},
-		"/etc/bar":    {0, 0},
-		"/etc/nope":   {0, 0},
-		"/etc/baz":    {permW | permA, permW | permA},
-		"/usr/bin/i":  {permR | permX | permM, permR | permX | permM}, // ix implies m
+		"/etc/foo":   {permR, permR},
+		"/home/u/x":  {permR | permW | permA, 0},
+		"/etc/bar":   {0, 0},
+		"/etc/nope":  {0, 0},
+		"/etc/baz":   {permW | permA, permW | permA},
+		"/usr/bin/i": {permR | permX | permM, permR | permX | permM}, // ix implies m
 	} {
 		a1, _ := p.File().Perms(s)
 		u, o := a1&permMask, (a1>>halfBits)&permMask
